@@ -42,6 +42,7 @@ def tokText : Tok → String
   | .bool false => "false"
   | .ident s => s
   | .t tt => (spell tt).getD ""
+  | .lit _ _ => ""
 
 /-- the spellings separated by one space -/
 def textOf : List Tok → String
@@ -527,6 +528,10 @@ def scannable : Tok → Bool
      | c0 :: r => isIdentFirst c0 && r.all isIdentRemaining
      | [] => false) && keyword s == "Identifier"
   | .t tt => opToks.contains tt
+  | .lit _ _ => false
+
+theorem op_not_lit : ∀ tt ∈ opToks, (tt == "Str" || tt == "Char" || tt == "Byte") = false ∧
+    (tt == "Octal" || tt == "Hexadecimal" || tt == "Binary" || tt == "Float") = false := by decide +kernel
 
 theorem kw_true : keyword "true" = "True" ∧ keyword "false" = "False" := by decide +kernel
 
@@ -583,7 +588,8 @@ theorem first_token (t : Tok) (h : scannable t = true) (tail : List Char) (ht : 
       obtain ⟨lit, hl⟩ := first_op tt hm str hsp tail ht
       simp only [tokText, hsp, Option.getD_some]
       refine ⟨_, hl, ?_, by simpa using d5⟩
-      simp [ofToken, d1, d2, d3, d4]
+      simp [ofToken, d1, d2, d3, d4, (op_not_lit tt hm).1, (op_not_lit tt hm).2]
+  | lit _ _ => simp [scannable] at h
 
 /-! ## scanning the text of a token list -/
 
@@ -694,6 +700,13 @@ def atomsScannable : PExpr → Bool
   | .call f args => atomsScannable f && atomsScannableList args
   | .ifE _ _ _ => false
   | .fnE _ _ => false
+  | .null => false
+  | .score => false
+  | .matchE _ _ => false
+  | .arr _ => false
+  | .map _ => false
+  | .lit _ _ => false
+  | .bid _ => false
 def atomsScannableList : List PExpr → Bool
   | [] => true
   | e :: es => atomsScannable e && atomsScannableList es
@@ -771,6 +784,13 @@ theorem render_scannable (T : Tbl) : ∀ (x : PExpr), wfT T x = true → atomsSc
       (AllSc.cons (sc_op (by decide)) (renderArgs_scannable T args hw.2 h.2))
   | .ifE _ _ _, hw, _ => by simp [wfT] at hw
   | .fnE _ _, hw, _ => by simp [wfT] at hw
+  | .null, hw, _ => by simp [wfT] at hw
+  | .score, hw, _ => by simp [wfT] at hw
+  | .matchE _ _, hw, _ => by simp [wfT] at hw
+  | .arr _, hw, _ => by simp [wfT] at hw
+  | .map _, hw, _ => by simp [wfT] at hw
+  | .lit _ _, hw, _ => by simp [wfT] at hw
+  | .bid _, hw, _ => by simp [wfT] at hw
 theorem renderArgs_scannable (T : Tbl) : ∀ (es : List PExpr), wfListT T es = true →
     atomsScannableList es = true → AllSc (renderArgsT T es)
   | [], _, _ => by rw [renderArgsT]; exact AllSc.cons (sc_op (by decide)) AllSc.nil
